@@ -26,6 +26,7 @@ import (
 	"strconv"
 	"strings"
 	"sync"
+	"sync/atomic"
 	"time"
 )
 
@@ -321,6 +322,10 @@ func init() {
 	specs["C12"] = net("C12", 2400, 200000, "one case = one simulated server lifetime under a drawn DHCPv6 chain with 2..30 datagrams: message type 0..255 (biased to the defined ones), with/without client id and Rapid Commit, Server Identifier none/own/other, relay depth 0..4 with drawn per-layer link/peer addresses, Interface-ID, Remote-ID and extra options, wire-only shapes (outer Relay-Reply, Relay-Forward without relay-message option, truncation, bit flips), source global or link-local, listeners bound/unbound, receiving interface 2..4, duplicates in flight; every captured reply is attributed to its handler task; distinct = distinct (context-switch hash, reply-sequence hash); non-trivial = at least 2 datagrams delivered", "wire6")
 	specs["C14"] = net("C14", 2400, 200000, "one case = one simulated server lifetime with server_id configured for both protocols (every accepted argument spelling) and 2..30 messages: all DHCPv6 client message types x Server Identifier {none, own, other: every DUID kind, other kind over the same address, equal prefix longer/shorter, different time/hwtype} x relay depth 0..4; DHCPv4 DISCOVER/REQUEST x siaddr {absent, zero, own, other} x option 54 {absent, zero, own, other}; distinct = distinct (context-switch hash, reply-sequence hash); non-trivial = at least 2 datagrams delivered", "serverid")
 	specs["C10"] = net("C10", 2400, 200000, "one case = one simulated server lifetime with the file plugin for DHCPv4, DHCPv6 (or both, switch-gated) on an in-memory file system: a lease file drawn from the grammar (every MAC/IP spelling, comments, blank lines, duplicates, at most one malformation), 2..16 requests from listed and unlisted clients (DHCPv6 with/without IA_NA, MAC from DUID or relay peer address) interleaved, under autorefresh, with 1..6 operator updates performed syscall by syscall (in-place rewrite in 1..4 chunks with torn reads, append, rename-over, unlink+recreate, move-away) producing the inotify events of the calibrated model with coalescing, and injected read errors; the reference model is driven by what the plugin actually read; distinct = distinct (context-switch hash, reply-sequence hash); non-trivial = at least 2 datagrams delivered or a rejected start-up", "static")
+	c16 := net("C16", 1200, 120000, "one case = one simulated server lifetime on the -race build with 2..40 datagrams in flight through lease4 (range+sqlite), pd6 (prefix), static (file with refresh events in flight) and mixed full chains, every scheduler policy, receive buffers recycled with maximal reuse and poisoned on Put; three monitors: the Go race detector (schedule-independent thanks to the annotation-free baton), porcupine over the datagram history against the sequential lease model, and the C02/C08/C09/C10 oracles under statement-level preemption; distinct = distinct (context-switch hash, reply-sequence hash); non-trivial = at least 2 datagrams delivered", "lease4", "pd6", "static", "mixed", "lease4", "pd6", "wire4", "wire6")
+	c16.RaceQuick, c16.RaceThor, c16.KnownPct = true, true, 0
+	c16.Assume = append(c16.Assume, "the Go race detector's bounded shadow history (a race whose first access was evicted is missed; mitigated by many short runs)", "porcupine v1.3.0")
+	specs["C16"] = c16
 	specs["C03"] = net("C03", 2400, 200000, "as C02 but crash-heavy: 1..6 crashes placed at statement boundaries (half inside the range plugin / start-up), plus restarts of the range plugin on copies of the database taken at drawn instants; the database is read back by an independent connection at every crash and at the end", "lease4-crash", "lease4-crash", "lease4", "lease4-sqlfault")
 }
 
@@ -356,7 +361,15 @@ func execSimrun(ctx context.Context, bin string, timeout time.Duration, j job, a
 	cctx, cancel := context.WithTimeout(ctx, timeout)
 	defer cancel()
 	cmd := exec.CommandContext(cctx, bin, args...)
-	cmd.Env = append(os.Environ(), "GORACE=halt_on_error=1 exitcode=66 history_size=3", "GOMAXPROCS=2")
+	raceLog := ""
+	if strings.HasSuffix(bin, ".race") {
+		raceSeq++
+		raceLog = fmt.Sprintf("/dev/shm/verif-race-%d-%d", os.Getpid(), atomic.AddInt64(&raceCtr, 1))
+	}
+	cmd.Env = append(os.Environ(), "GORACE=halt_on_error=0 exitcode=0 history_size=4 log_path="+raceLog, "GOMAXPROCS=2")
+	if raceLog == "" {
+		cmd.Env = append(os.Environ(), "GOMAXPROCS=2")
+	}
 	var stdout, stderr bytes.Buffer
 	cmd.Stdout = &stdout
 	cmd.Stderr = &stderr
@@ -376,6 +389,24 @@ func execSimrun(ctx context.Context, bin string, timeout time.Duration, j job, a
 		}
 		res.runs = append(res.runs, r)
 	}
+	if raceLog != "" {
+		files, _ := filepath.Glob(raceLog + ".*")
+		var text strings.Builder
+		for _, f := range files {
+			b, _ := os.ReadFile(f)
+			text.Write(b)
+			os.Remove(f)
+		}
+		finds, mach := parseRaces(text.String())
+		if len(res.runs) == 1 {
+			res.runs[0].Findings = append(res.runs[0].Findings, finds...)
+		} else if len(finds) > 0 {
+			res.err = fmt.Errorf("race report from a process that printed %d summaries", len(res.runs))
+		}
+		if mach != "" {
+			res.err = fmt.Errorf("the race detector reported a race inside the harness itself:\n%s", mach)
+		}
+	}
 	if cctx.Err() == context.DeadlineExceeded {
 		res.err = fmt.Errorf("timeout after %v", timeout)
 		return res
@@ -384,6 +415,62 @@ func execSimrun(ctx context.Context, bin string, timeout time.Duration, j job, a
 		res.err = fmt.Errorf("simrun %v: %v", args, err)
 	}
 	return res
+}
+
+var raceCtr, raceSeq int64
+
+// parseRaces turns Go race detector reports into C16 findings. A report counts against coredhcp when at
+// least one of the two conflicting accesses has a frame in repository code (not the harness under zzverif/).
+func parseRaces(text string) (finds []Finding, machinery string) {
+	if !strings.Contains(text, "WARNING: DATA RACE") {
+		return nil, ""
+	}
+	for _, rep := range strings.Split(text, "==================") {
+		if !strings.Contains(rep, "WARNING: DATA RACE") {
+			continue
+		}
+		// the two access stacks are the first two blocks of frames
+		lines := strings.Split(rep, "\n")
+		var stacks [][]string
+		var cur []string
+		in := false
+		for _, l := range lines {
+			switch {
+			case strings.HasPrefix(l, "Read at") || strings.HasPrefix(l, "Write at") || strings.HasPrefix(l, "Previous read") || strings.HasPrefix(l, "Previous write") ||
+				strings.HasPrefix(l, "Atomic") || strings.HasPrefix(l, "Previous atomic"):
+				in = true
+				cur = nil
+			case in && strings.TrimSpace(l) == "":
+				stacks = append(stacks, cur)
+				in = false
+			case in && strings.HasPrefix(l, "  ") && !strings.HasPrefix(l, "      "):
+				cur = append(cur, strings.TrimSpace(l))
+			}
+		}
+		var keys []string
+		repo := false
+		for _, st := range stacks {
+			k := ""
+			for _, f := range st {
+				if strings.Contains(f, "github.com/coredhcp/coredhcp/") && !strings.Contains(f, "/zzverif/") && !strings.Contains(f, "zz_verif_sim") && !strings.Contains(f, "SimListener") {
+					k = strings.TrimSuffix(strings.TrimPrefix(f, "github.com/coredhcp/coredhcp/"), "()")
+					repo = true
+					break
+				}
+			}
+			if k == "" && len(st) > 0 {
+				k = strings.TrimSuffix(st[0], "()")
+			}
+			keys = append(keys, k)
+		}
+		sort.Strings(keys)
+		if !repo {
+			machinery += rep
+			continue
+		}
+		finds = append(finds, Finding{Property: "C16", Class: "data-race/" + strings.Join(keys, "|"), Detail: strings.TrimSpace(rep)})
+	}
+	return finds, machinery
 }
 
 // ---------------------------------------------------------------------------
@@ -974,7 +1061,11 @@ func cmdReplay(path string) int {
 	if race {
 		bin = bi.Race
 	}
-	cr := execSimrun(context.Background(), bin, 120*time.Second, job{}, "-engine", rf.Engine, "-replay", path, "-full", "-trace")
+	rargs := []string{"-engine", rf.Engine, "-replay", path, "-full"}
+	if !race {
+		rargs = append(rargs, "-trace")
+	}
+	cr := execSimrun(context.Background(), bin, 120*time.Second, job{}, rargs...)
 	if cr.err != nil && len(cr.runs) == 0 {
 		die(2, "replay: %v\n%s", cr.err, tail(cr.stderr, 4000))
 	}
